@@ -118,7 +118,7 @@ func c10(c *Ctx) {
 // window, so arrival k is shifted by k x 250 ms before judging (sound as long as a sleep overshoots by less than that;
 // a change that lets lines through more than 250 ms early is still seen).
 func c10Wire(c *Ctx) {
-	for s := 0; s < c.Pick(1, 4); s++ {
+	for s := 0; s < c.Pick(2, 6); s++ {
 		n := c.R.Range(6, 9)
 		var lens []int
 		for i := 0; i < n; i++ {
@@ -131,7 +131,34 @@ func c10Wire(c *Ctx) {
 			c.Res.Inconclusive++
 			continue
 		}
+		// "Flood toggled on and off": in some bursts the application switches protection off for single lines (and waits
+		// for each line to reach the server before it changes the switch again, so that it is known which lines were
+		// written under which setting). A line written with Flood set is neither delayed nor charged, and it must not
+		// disturb the penalty of the protected lines around it: the window bound is judged on the protected lines alone.
+		prot := make([]bool, n)
+		for i := range prot {
+			prot[i] = true
+		}
+		toggled := (s+int(c.Seed))%2 == 1
+		if toggled {
+			for i := 3; i < n; i++ {
+				if i == 4 || c.R.P(1, 4) {
+					prot[i] = false
+				}
+			}
+		}
+		if toggled {
+			desc += fmt.Sprintf(", protection switched off for the lines at %v", func() (o []int) {
+				for i, p := range prot {
+					if !p {
+						o = append(o, i)
+					}
+				}
+				return
+			}())
+		}
 		t0 := time.Now()
+		issuedAt := make([]time.Time, n)
 		go func() {
 			for i, l := range lens {
 				// every kind of line is subject to the rule: commands of the API, replies to server PINGs, raw lines
@@ -141,6 +168,10 @@ func c10Wire(c *Ctx) {
 					}
 					return prefix
 				}
+				if toggled {
+					sess.conn.Config().Flood = !prot[i]
+				}
+				issuedAt[i] = time.Now()
 				switch (i + s + int(c.Seed)) % 4 {
 				case 0:
 					sess.conn.Raw(pad("PRIVMSG #c :"))
@@ -150,6 +181,9 @@ func c10Wire(c *Ctx) {
 					sess.conn.Notice("#c", pad(""))
 				default:
 					sess.conn.Raw(pad("PONG :"))
+				}
+				if toggled && !sess.srv.WaitLines(2+i+1, 60*time.Second) {
+					return
 				}
 			}
 		}()
@@ -163,12 +197,23 @@ func c10Wire(c *Ctx) {
 			continue
 		}
 		var obs, shown []string
+		kp := 0
 		for k := range lines {
-			w := times[k].Sub(t0).Nanoseconds() + int64(k)*int64(250*time.Millisecond)
+			if k >= 2 && !prot[k-2] {
+				shown = append(shown, fmt.Sprintf("(%dB@%.2fs unprotected)", len(lines[k]), times[k].Sub(t0).Seconds()))
+				if d := times[k].Sub(issuedAt[k-2]); d > 1900*time.Millisecond {
+					// the shortest hold the rule knows is 2 s; the queue was empty when this line was issued
+					c.SpecFail("spec", desc, "", fmt.Sprintf("line %d was written with Flood set and still reached the server only %.2fs after it was issued", k-2, d.Seconds()),
+						map[string]interface{}{"op": "wire-burst", "lengths": lens, "unprotected": k - 2})
+				}
+				continue
+			}
+			w := times[k].Sub(t0).Nanoseconds() + int64(kp)*int64(250*time.Millisecond)
+			kp++
 			obs = append(obs, fmt.Sprintf("%d:%d", len(lines[k]), w))
 			shown = append(shown, fmt.Sprintf("%dB@%.2fs", len(lines[k]), times[k].Sub(t0).Seconds()))
 		}
-		c.RunCases([]Case{{Desc: desc + ": " + strings.Join(shown, " "), Spec: []string{"spec10w " + strings.Join(obs, ",")}, Tag: "wire-burst",
+		c.RunCases([]Case{{Desc: desc + ": " + strings.Join(shown, " "), Spec: []string{"spec10w " + strings.Join(obs, ",")}, Tag: map[bool]string{false: "wire-burst", true: "wire-burst/toggled"}[toggled],
 			Key: fmt.Sprintf("%v/%d/%d", lens, s, c.Seed), Replay: map[string]interface{}{"op": "wire-burst", "lengths": lens, "arrivals": shown}}})
 	}
 }
